@@ -493,7 +493,10 @@ impl StorageEngine {
         #[cfg(feature = "verif-hooks")]
         vh::before_lock("se.insert.dropping", &|| self.dropping_kgs.is_locked_exclusive());
         let dropping_guard = self.dropping_kgs.read();
-        if dropping_guard.contains(kg) {
+        // While the guard is held no drop can start (it has to write the tombstone first), so a
+        // graph that is in the map now stays there until the guard is released. The existence
+        // checks above ran before the guard was taken: a drop may have completed since.
+        if dropping_guard.contains(kg) || !self.knowledge_graphs.contains_key(kg) {
             return Err(StorageError::KnowledgeGraphNotFound(kg.to_string()));
         }
 
@@ -522,8 +525,11 @@ impl StorageEngine {
             "persist_append_complete"
         );
 
-        // Release dropping_kgs guard before acquiring KG write lock
-        drop(dropping_guard);
+        // The dropping_kgs guard stays held until the in-memory state is updated as well:
+        // released here, a drop (and re-create) of the graph could run between the persist
+        // call and the in-memory update - the tuples would then be applied to another
+        // incarnation of the graph than the one whose shard they were written to (and
+        // deleted with), or be refused although they are already on disk.
 
         #[cfg(feature = "verif-hooks")]
         vh::yield_point("se.insert.persisted");
@@ -634,8 +640,7 @@ impl StorageEngine {
         self.persist.ensure_shard(&shard)?;
         self.persist.append(&shard, &updates)?;
 
-        // Release dropping_kgs guard before acquiring KG write lock
-        drop(dropping_guard);
+        // The dropping_kgs guard stays held until the in-memory state is updated (see insert)
 
         #[cfg(feature = "verif-hooks")]
         vh::yield_point("se.delete.persisted");
